@@ -213,6 +213,7 @@ def shards(tier, seed):
                 out.append(("len4_%s_%d" % (nm, part), dict(kind="lenN", reader=nm, n=4, part=part, parts=4)))
     out.append(("roundtrip_int_len", dict(kind="rt_int_len", big=not q)))
     out.append(("long_lengths", dict(kind="long_lengths")))
+    out.append(("subidentifiers", dict(kind="subid")))
     out.append(("roundtrip_oid", dict(kind="rt_oid", count=400 if q else 6000)))
     out.append(("roundtrip_bodies", dict(kind="rt_bodies", big=not q)))
     for i in range(2 if q else 8):
@@ -254,6 +255,49 @@ def run(ctx, name, kind, **kw):
         for v in range(kw["part"] * 256 ** 3 // kw["parts"], (kw["part"] + 1) * 256 ** 3 // kw["parts"]):
             judge_len(ctx, v.to_bytes(3, "big"), stats)
         flush(ctx, stats)
+    elif kind == "subid":
+        # read_number / encode_number (base-128 sub-identifiers): exhaustive over all inputs of <= 2 bytes and 3-byte inputs
+        # with a continuation prefix; round trip for structured values
+        def ref_read(s):
+            if not s:
+                raise R.DerError("empty")
+            if s[0] == 0x80:
+                raise R.DerError("padded arc")
+            v = 0
+            for i, b in enumerate(s):
+                v = (v << 7) | (b & 0x7F)
+                if not b & 0x80:
+                    return v, i + 1
+            raise R.DerError("truncated arc")
+        inputs = [bytes([a]) for a in range(256)] + [bytes([a, b]) for a in range(256) for b in range(256)]
+        inputs += [bytes([a, b, c]) for a in (0x80, 0x81, 0xFF, 0x7F, 0xC0) for b in range(256) for c in (0, 1, 0x7F, 0x80, 0xFF)]
+        for s_ in inputs:
+            try:
+                got = der.read_number(s_)
+                ok, exc = True, None
+            except der.UnexpectedDER:
+                ok, exc = False, None
+            except Exception as e:
+                ok, exc = False, e
+            try:
+                want = ref_read(s_)
+            except R.DerError:
+                want = None
+            k = ("subid", ok, "ok" if want else "bad", len(s_))
+            stats[k] = stats.get(k, 0) + 1
+            if exc is not None and s_:
+                ctx.violation("read_number_raises_" + type(exc).__name__, "read_number(%s) raised %s" % (s_.hex(), type(exc).__name__), dict(input=s_))
+            elif ok and (want is None or tuple(got) != want):
+                ctx.violation("read_number_wrong", "read_number(%s) = %r, reference %r" % (s_.hex(), got, want), dict(input=s_))
+            elif not ok and exc is None and want is not None:
+                ctx.violation("read_number_rejects_canonical", "read_number rejected %s = %r" % (s_.hex(), want), dict(input=s_))
+        for (_n, ok, w, ln), cnt in stats.items():
+            ctx.case("accept.object" if ok else "reject.object", key="subid|%s|%d" % (w, ln), n=cnt)
+        stats.clear()
+        for v in [0, 1, 127, 128, 129, 16383, 16384, 2 ** 21 - 1, 2 ** 21, 2 ** 28, 2 ** 35, 2 ** 64, 2 ** 70 + 5] + [rng.getrandbits(rng.randrange(1, 90)) for _ in range(200)]:
+            enc = der.encode_number(v)
+            ctx.case("roundtrip.oid", key="subid|%d" % (v.bit_length() // 7))
+            ctx.check(enc == R.enc_base128(v) and der.read_number(enc + b"\x00") == (v, len(enc)), "subidentifier_roundtrip", "encode_number(%d) = %s" % (v, enc.hex()), dict(v=v))
     elif kind == "long_lengths":
         # length fields with 1..8 length bytes: minimal, zero-padded, and values on both sides of every byte boundary
         vals = [0, 1, 0x7F, 0x80, 0xFF, 0x100, 0x101, 0x7FFF, 0xFFFF, 0x10000, 0xFFFFFF, 0x1000000, 0xFFFFFFFF, 0x100000000]
